@@ -29,6 +29,8 @@
 
 pub(crate) mod awaiter;
 mod set;
+#[cfg(folo_verif)]
+pub mod verif_hook;
 
 pub use awaiter::Awaiter;
 pub use set::AwaiterSet;
